@@ -125,6 +125,10 @@ func (mp *MotionProcessor) Process(rawFrame []byte) error {
 }
 
 func (mp *MotionProcessor) processSnapshot(frame *cptvframe.Frame) {
+	if mp.StartSnapshot && mp.SnapshotRecording {
+		// A test recording is already in progress, it serves this request too.
+		mp.StartSnapshot = false
+	}
 	if mp.StartSnapshot {
 		mp.log.Printf("making a snapshot")
 		mp.StartSnapshot = false
@@ -141,11 +145,11 @@ func (mp *MotionProcessor) processSnapshot(frame *cptvframe.Frame) {
 	mp.snapshotFrames++
 	if mp.snapshotFrames > 20 {
 		mp.SnapshotRecording = false
+		mp.snapshotFrames = 0
 		if err := mp.snapshotRecorder.StopRecording(); err != nil {
 			mp.log.Printf("error with stoping constant recorder: %v", err)
 			return
 		}
-		mp.snapshotFrames = 0
 	}
 }
 
